@@ -65,7 +65,7 @@ GROUPS = {
     'gcroots': ['vcell', 'stack', 'globenv', 'heap_model', 'vm_struct', 'continuation', 'run_gc'],
     'cont': ['vcell', 'stack', 'vm_struct', 'continuation', 'builtin_mod', 'builtin_procedure'],
     'builtins': ['vcell', 'stack', 'vm_struct', 'builtin_mod', 'builtin_vector', 'builtin_list'],
-    'compile': ['vm_struct', 'vm_prepare', 'lambda', 'compile', 'builtin_procedure_eval'],
+    'compile': ['vcell', 'vm_struct', 'vm_prepare', 'lambda', 'compile', 'builtin_procedure_eval'],
     'runone': ['vcell', 'stack', 'vm_struct', 'continuation', 'run_one'],
     'numbuiltins': ['number', 'vcell', 'stack', 'vm_struct', 'builtin_mod', 'builtin_mod_num', 'builtin_number'],
 }
